@@ -1676,6 +1676,9 @@ class Switch(ChoiceMap):
     def get_inner_map(self, addr: AddressComponent) -> ChoiceMap:
         return Switch(self.idx, [chm.get_inner_map(addr) for chm in self.chms])
 
+    def static_is_empty(self) -> bool:
+        return all(chm.static_is_empty() for chm in self.chms)
+
 
 @Pytree.dataclass(match_args=True)
 class Or(ChoiceMap):
